@@ -13,6 +13,22 @@ CHECKS = {
     note='Trusts: Python Fraction/Decimal; libm pow to 1e-9 relative away from integer results; the pinned coefficient copy; '
          'the factor JSON as data. Events without a factor row are only checked for crash-freedom under an age >= 35.',
     ref='DESIGN.md §4 C01'),
+ 'C05': dict(
+    technique='metamorphic adjacent-pair sweep over generated runs of consecutive marks (monotonicity, type, bounds)',
+    text='Runs of consecutive 0.01 marks are generated for every table/event/gender/age of all six scoring systems (complete ranges '
+         'for the small systems and for combined events without age; seeded windows plus every threshold elsewhere in the quick tier, '
+         'complete ranges in the thorough tier); every adjacent pair must be monotone, integer and within the system bounds.',
+    note='No reference values are needed (metamorphic). Hungarian range limited as the property states. Explores, does not prove, '
+         'pairs outside the swept windows in the quick tier.',
+    ref='DESIGN.md §4 C05'),
+ 'C11': dict(
+    technique='grid sweep in every documented input form against exact Fraction re-evaluation of the tables (differential) + table-structure enumeration',
+    text='Every (system, table, event, gender, age) x centi-marks below, inside and beyond the tabulated range, in each documented carrier '
+         '(float, int, text, m:ss.xx, Tyrving hand-timed text), compared with the table / linear formula evaluated in Fraction arithmetic; '
+         'every table row is checked for ordering and reachability; table data are pinned by digest to the reference tree.',
+    note='Trusts the tables of the reference tree as "published" (digest pins in checks/c11_pins.json; re-pin on an intentional table update). '
+         'Sportshall increments in unparseable units only get a lower-bound oracle.',
+    ref='DESIGN.md §4 C11'),
  'C09': dict(
     technique='exhaustive enumeration of the finite domain with a two-sided round-trip oracle',
     text='All 48 table rows x all integer targets -10..1500 (72 528 cases) are enumerated in both tiers; the needed mark must score '
